@@ -57,6 +57,7 @@ var targets = []target{
 	{"lib/readercounter/counter.go", "ReaderCounter.Read", []string{"c.R"}},
 	{"lib/fruit/csblob/pagehash.go", "hashPages", nil},
 	{"lib/fruit/machos/sign.go", "Sign", nil},
+	{"lib/pgptools/util.go", "readOneSignature", nil},
 	{"lib/fruit/machos/header.go", "scanFile", nil},
 }
 
